@@ -9,6 +9,7 @@ methods over the DBus bus.
 from twisted.internet import defer, reactor
 from twisted.internet.error import ConnectError
 from twisted.internet.protocol import Factory
+from twisted.python import log
 
 import txdbus.protocol
 from txdbus import (
@@ -105,8 +106,13 @@ class DBusClientConnection (txdbus.protocol.BasicDBusProtocol):
         # If the reply to Hello is still outstanding, failing the pending calls
         # below errbacks the factory's Deferred
 
-        for cb in self._dcCallbacks:
-            cb(self, reason)
+        # a callback that raises must not keep the other callbacks, the
+        # outstanding calls and the remote-object proxies from being told
+        for cb in list(self._dcCallbacks):
+            try:
+                cb(self, reason)
+            except BaseException:
+                log.err()
 
         # errbacks run user code which may issue new calls: do not iterate
         # over the live dictionary
